@@ -1531,9 +1531,13 @@ impl Handler for ChannelHandler {
                     )))?;
                 }
                 let commit_num = m.commitment_number;
+                // an out-of-range number must not wrap around to commitment 0
+                let new_current_commit_num = commit_num
+                    .checked_add(1)
+                    .ok_or_else(|| Status::invalid_argument("commitment number out of range"))?;
                 let (next_per_commitment_point, old_secret) =
                     self.node.with_channel(&self.channel_id, |chan| {
-                        chan.revoke_previous_holder_commitment(commit_num + 1)
+                        chan.revoke_previous_holder_commitment(new_current_commit_num)
                     })?;
                 let old_secret_reply =
                     old_secret.map(|s| DisclosedSecret(s[..].try_into().unwrap()));
